@@ -121,6 +121,28 @@ impl Visitor<Diagnostic> for LibraryRenderer {
         self.visit_integer(&node.value)
     }
 
+    // 2.2.1
+    fn visit_integer_literal(
+        &mut self,
+        node: &IntegerLiteral,
+    ) -> Result<Self::Value, Diagnostic> {
+        match &node.data_type {
+            Some(data_type) => {
+                // The type prefix, sign and digits are one lexeme
+                let sign = if node.value.is_neg { "-" } else { "" };
+                let val = format!(
+                    "{}#{}{}",
+                    data_type.as_id().original(),
+                    sign,
+                    node.value.value.value
+                );
+                self.write_ws(val.as_str());
+                Ok(())
+            }
+            None => self.visit_signed_integer(&node.value),
+        }
+    }
+
     fn visit_real_literal(&mut self, node: &RealLiteral) -> Result<Self::Value, Diagnostic> {
         let mut val = String::new();
         if let Some(data_type) = &node.data_type {
